@@ -1323,7 +1323,8 @@ def decode_template(hexbytes):
             if n & 8:
                 argi = b[i] | (b[i + 1] << 8)
                 i += 2
-            out.append(('arg', argi))
+            # a precision (`{:.15}`) truncates what is printed: marked, so that rules about faithful printing can see it
+            out.append(('arg', argi, 'prec') if n & 4 else ('arg', argi))
             argi += 1
         else:
             raise AnalysisError('fmt template: bad byte %#x' % n)
